@@ -187,6 +187,13 @@ async def limit_scenario(loop, case, out, stats, fps, samples):
         # leftovers: never started => queued, untouched
         started = {s["id"] for s in starts}
         snap = w.rig.snapshot()
+        # ... and what WAS executed and acknowledged within the budget is not in the queue any more (a next worker with a
+        # budget of its own would spend it on jobs that are done)
+        acked = {e["id"] for e in w.log.events if e.get("k") == "ret" and e.get("op") == "ack" and e.get("depth") == 0}
+        back = sorted(i for i in acked if snap.get(i))
+        stats["acknowledged_executions_checked"] += len(acked)
+        if back:
+            out.append(V("leftover_touched", kind, "executed-and-still-queued", f"messages_limit={M}: {back[:4]} were executed and acknowledged, yet they are at {[snap.get(i) for i in back[:4]]} after run() returned"))
         for id_ in ids:
             if id_ in started:
                 continue
